@@ -62,6 +62,10 @@ Definition store_eqv_except (touched : list str) (s t : store) : Prop :=
 
 Definition quiet (w : world) : Prop := w_crash w = None /\ w_faults w = [].
 
+(** the world with BackupFS's bookkeeping replaced (what [put_infos] does) *)
+Definition with_infos (w : world) (i : infomap) : world :=
+  mkWorld (w_st w) (w_trace w) (w_ticks w) (w_crash w) (w_faults w) i.
+
 (** a call on one filesystem leaves the other view, the tracked state and the
     crash/fault plan alone *)
 Definition same_rest (V' : world -> store) (w w' : world) : Prop :=
